@@ -24,7 +24,38 @@ static std::string grammar_str(const GCase &c) {
   return s;
 }
 
+// unit chains: A0 -> A1 -> ... -> Ak, Ak -> eps | A0 t (information has to travel the whole chain, in both
+// directions, before FIRST sets and nullability reach their fixpoint), plus a few random extra rules
+static GCase decode_chain(Tape &t) {
+  GCase c;
+  c.prefix = t.chance(1, 2);
+  int k = 3 + (int)t.pick(8);
+  c.nnt = k + 1;
+  c.nterm = 1 + (int)t.pick(2);
+  rcfg::Grammar g;
+  g.nnt = c.nnt;
+  bool ascending = t.chance(1, 2);
+  auto nt = [&](int i) { return ascending ? i : (i == 0 ? 0 : k + 1 - i); };  // the start symbol stays non-terminal 0
+  for (int i = 0; i < k; i++) {
+    std::vector<rcfg::Sym> rhs = {rcfg::N(nt(i + 1))};
+    if (t.chance(1, 5)) rhs.push_back(rcfg::T(1 + (int)t.pick((unsigned)c.nterm)));
+    g.add(nt(i), rhs);
+  }
+  if (t.chance(3, 4)) g.add(nt(k), {});
+  g.add(nt(k), {rcfg::N(nt(0)), rcfg::T(1 + (int)t.pick((unsigned)c.nterm))});
+  int extra = (int)t.pick(3);
+  for (int i = 0; i < extra; i++) {
+    std::vector<rcfg::Sym> rhs;
+    int len = (int)t.pick(3);
+    for (int j = 0; j < len; j++) rhs.push_back(t.chance(1, 2) ? rcfg::T(1 + (int)t.pick((unsigned)c.nterm)) : rcfg::N((int)t.pick((unsigned)c.nnt)));
+    g.add((int)t.pick((unsigned)c.nnt), rhs);
+  }
+  c.rules = g.rules;
+  return c;
+}
+
 static GCase decode(Tape &t) {
+  if (t.chance(1, 8)) return decode_chain(t);
   GCase c;
   c.prefix = t.chance(1, 2);
   c.nnt = 1 + (int)t.weighted({3, 4, 3, 2});
@@ -73,8 +104,17 @@ static void judge_c13(const GCase &c, Result &r, int L) {
     const rcfg::Rule &rule = c.rules[ri];
     std::vector<Grammar::Symbol> rhs;
     for (auto &s : rule.rhs) rhs.push_back(s.term ? Grammar::Symbol::Terminal((unsigned)s.id) : nts[(size_t)s.id]);
-    if (rhs.empty() && (ri % 2)) {  // an explicit epsilon symbol must behave like an empty right side
+    // explicit epsilon symbols anywhere in a right side (also several in a row) must be ignored: "A -> eps eps" is
+    // an epsilon rule, "A -> a eps eps B" is "A -> a B"
+    unsigned eh = (unsigned)(r.hash >> (ri % 16)) + (unsigned)ri * 7u;
+    if (rhs.empty() && (ri % 2)) {
       rhs.push_back(Grammar::Symbol::Epsilon());
+      if (eh % 3 == 0) rhs.push_back(Grammar::Symbol::Epsilon());
+      with_explicit_eps = true;
+    } else if (eh % 4 == 0) {
+      size_t at = (eh / 4) % (rhs.size() + 1);
+      size_t n = 1 + (eh / 64) % 3;
+      rhs.insert(rhs.begin() + (long)at, n, Grammar::Symbol::Epsilon());
       with_explicit_eps = true;
     }
     std::string name = std::string(1, (char)('A' + rule.lhs)) + std::to_string(rule.alt);
@@ -86,7 +126,6 @@ static void judge_c13(const GCase &c, Result &r, int L) {
       return s + ")";
     });
   }
-  (void)with_explicit_eps;
   // FIRST sets against the textbook definition (on a copy; the parser computes its own)
   {
     Theo::SemanticGrammar<Sem> G2 = G;
@@ -254,6 +293,8 @@ static void judge_c13(const GCase &c, Result &r, int L) {
   if (ambiguous) r.cls("ambiguous");
   if (!conflict_free && !ambiguous) r.cls("conflicting-but-not-shown-ambiguous");
   if (has_eps_rule) r.cls("epsilon-rule");
+  if (with_explicit_eps) r.cls("explicit-epsilon-symbols");
+  if (c.nnt > 4) r.cls("unit-chain-grammar");
   if (conflict_free && accepted) r.cls("accepts-some-string");
   r.nontrivial = (conflict_free && accepted > 0 && (any_long || has_eps_rule)) || ambiguous;
 }
